@@ -639,7 +639,7 @@ CLAIM = {
     "text": "Path rules (edge dominance, must-pass-through, receiver provenance) and HIR match-table rules over the optimizer's rewrite "
             "functions decide the side conditions that make each rewrite an equivalence (volatility, LIMIT barrier, preserved side of outer "
             "joins, cast-flatten and LIKE guards) on all CFG paths. Plan equivalence on data is a value-level statement outside static reach; "
-            "these clauses are the necessary conditions whose violation changes results (incl. the ∀∀ grouping-set test of aggregate pushdown).",
+            "these clauses are the necessary conditions whose violation changes results (incl. the ∀∀ grouping-set test of aggregate pushdown). Plus: a join node re-built with the join type of an existing node keeps that node's condition unless the join type was tested to be Inner (a filter is merged into an ON clause only for INNER joins).",
     "note": "trusted: rustc MIR/HIR; deny/allow tables in rules/c02.py (filters never cross Limit; Limit only crosses Project); class of "
             "existential predicates discovered from the accumulator's initial constant",
     "technique": "static analysis: MIR edge-dominance/provenance rules + HIR match tables (rustc_private driver)",
